@@ -512,6 +512,69 @@ def rule_x6(P):
     obl.append({"rule": "X6", "inst": "rejected include edges are not re-indexed into a map keyed by file only", "ok": ok})
     if not ok:
         findings.append(F("X6", "X6|lossy-skip-index", f"generate_parse_tree re-indexes validate()'s rejected edges into {lossy[0][0]} before handing them to generate_recurse: a map keyed by file keeps one rejected statement per file, so a second cyclic include in the same file is still expanded and the assembly recurses without bound", P.site_loc(gp, lossy[0][1])))
+    # the cycle test inside validate(): the scan over the chain of open files (`stack.iter().any(|ancestor| ancestor == child)`)
+    # must see the file whose include statement is being examined, i.e. the popped entry has been pushed back before the scan
+    names = vb.get("names", {})
+
+    def root_of(l, depth=0):
+        while depth < 12:
+            depth += 1
+            if str(l) in names:
+                return l
+            ds = vdefs.get(l, ())
+            if len(ds) != 1:
+                return l
+            d = ds[0]
+            if d[0] == "stmt":
+                rv = d[3]["rv"]
+                if "p" in rv:
+                    l = rv["p"][0]
+                    continue
+                ops = [operand_local(o) for o in rv.get("o", [])]
+                ops = [o for o in ops if o is not None]
+                if len(ops) == 1:
+                    l = ops[0]
+                    continue
+                return l
+            a0 = operand_local(d[3]["a"][0]) if d[3]["a"] else None
+            if a0 is None:
+                return l
+            l = a0
+        return l
+
+    vdefs = def_sites(vb)
+    vcfg = CFG(vb)
+    vsites = [s for s in P.iter_sites(va) if s["kind"] == "call" and not vb["blocks"][s["bi"]]["cl"] and s["term"]["a"]]
+
+    def last(s):
+        return (s["targets"][0] if s["targets"] else "").rsplit("::", 1)[-1]
+
+    pops = [s for s in vsites if last(s) == "pop" and "vec" in s["targets"][0]]
+    stack_l = {root_of(operand_local(s["term"]["a"][0])) for s in pops if operand_local(s["term"]["a"][0]) is not None}
+    scans = [s for s in vsites if last(s) in ("any", "all", "find", "position", "contains", "find_map", "rposition")
+             and operand_local(s["term"]["a"][0]) is not None and root_of(operand_local(s["term"]["a"][0])) in stack_l]
+    pushes = [s for s in vsites if last(s) == "push" and operand_local(s["term"]["a"][0]) is not None and root_of(operand_local(s["term"]["a"][0])) in stack_l]
+    if not pops or not scans:
+        raise E4Error(f"X6: IncludeGraph::validate has no work-list pop ({len(pops)}) or no scan over the chain of open files ({len(scans)}): the cycle test is not in a form this rule recognises")
+    popped = set()
+    for s in pops:
+        popped |= set(s["term"]["d"][:1])
+    for sc in scans:
+        good = False
+        for pu in pushes:
+            if not (vcfg.dominates(pu["bi"], sc["bi"]) and any(vcfg.dominates(po["bi"], pu["bi"]) for po in pops)):
+                continue
+            vl = operand_local(pu["term"]["a"][1]) if len(pu["term"]["a"]) > 1 else None
+            if vl is None:
+                continue
+            sl, _ = backward_slice(vb, [vl], vdefs)
+            if sl & popped:
+                good = True
+        obl.append({"rule": "X6", "inst": "validate(): the popped file is pushed back on the chain before the ancestor scan that detects a cycle", "ok": good})
+        if not good:
+            findings.append(F("X6", "X6|ancestor-scan", "IncludeGraph::validate scans the chain of open files for the include target while the file that contains the include statement is "
+                              "not on the chain (the popped entry is pushed back only afterwards): a file other than the root that includes itself is not reported as a cycle, "
+                              "and generate_recurse follows the self-include until the stack overflows", P.site_loc(va, sc["term"]["l"])))
     # in generate_recurse the recursive call is control dependent on a test derived from the rejected-edge parameter
     rb = P.bodies[gr]
     rcfg = CFG(rb)
